@@ -1,32 +1,66 @@
 (* The vocabulary in which property C17 is stated (specification only: nothing here transcribes
    code, and nothing here is extracted).  A document is the list of paragraphs of the file, a
-   paragraph the list of its (field, value) pairs; the first paragraph is the header. *)
+   paragraph the list of its (field, value) pairs; the first paragraph is the header.
+
+   Field names are not case-sensitive (Debian Policy 5.1): the specification looks a field up
+   with [sget], which compares names modulo ASCII case.  The code compares them exactly
+   (Paragraph::get is [pget]); the two agree on documents that spell Files / License /
+   Copyright / Format exactly so ([exact_case]) and differ otherwise — finding field-name-case,
+   see [Known_field_name_case] and C17_field_name_case_witness. *)
 From V.model Require Import Base Deb822Parse Glob Copyright.
 
-(* the Files paragraphs, in file order: the non-header paragraphs that carry a Files field *)
-Definition files_paragraphs (d : doc) : doc := filter (fun p => has p k_Files) (tl d).
-(* the stand-alone licence paragraphs, in file order *)
-Definition licence_paragraphs (d : doc) : doc :=
-  filter (fun p => negb (has p k_Files) && has p k_License) (tl d).
+(* ---------------------------------------------------------------- field lookup of the specification *)
+Definition lower (c : char) : char := if ((65 <=? c) && (c <=? 90))%N then (c + 32)%N else c.
+Definition ci_eqb (a b : str) : bool := str_eqb (map lower a) (map lower b).
+(* the value of the first field whose name is [key], in any case *)
+Fixpoint sget (p : para) (key : str) : option str :=
+  match p with
+  | [] => None
+  | (k, v) :: r => if ci_eqb k key then Some v else sget r key
+  end.
 
-(* the whitespace-separated patterns of a paragraph (on one or several lines: a line break is
-   whitespace) *)
-Definition patterns (p : para) : list str :=
-  match pget p k_Files with Some x => split_whitespace x | None => [] end.
-(* "one of whose whitespace-separated patterns matches the whole path" *)
-Definition para_matches (p : para) (path : str) : Prop :=
-  exists g, In g (patterns p) /\ glob_matches g path.
-(* the licence a paragraph carries *)
-Definition para_licence (p : para) : option license :=
-  option_map license_of_str (pget p k_License).
-(* a paragraph whose licence has the name n *)
-Definition named (n : str) (p : para) : Prop :=
-  exists l, para_licence p = Some l /\ lic_name l = Some n.
+(* the field names the lookups depend on *)
+Definition special_names : list str := [k_Files; k_License; k_Copyright; k_Format].
+(* a name that is one of them up to case is spelled exactly so *)
+Definition exact_case_name (k : str) : bool :=
+  forallb (fun K => implb (ci_eqb k K) (str_eqb k K)) special_names.
+Definition exact_case_para (p : para) : bool := forallb (fun kv => exact_case_name (fst kv)) p.
+Definition exact_case (d : doc) : Prop := forallb exact_case_para d = true.
+(* finding field-name-case: some paragraph spells Files, License, Copyright or Format in another
+   case ("files: *").  Narrow, decidable; the lookup theorems exclude it and
+   C17_field_name_case_witness shows the exclusion is necessary. *)
+Definition Known_field_name_case (d : doc) : Prop := forallb exact_case_para d = false.
 
-(* every pattern of every Files paragraph has valid escapes (DEP-5: anything else is an error;
-   the code panics when it reaches such a pattern) *)
-Definition doc_valid (d : doc) : Prop :=
-  forall p g, In p (files_paragraphs d) -> In g (patterns p) -> valid_escapes g = true.
+(* ---------------------------------------------------------------- generic in the field lookup *)
+(* The definitions are written once, over a lookup function [get]; the specification instantiates
+   them with [sget], the proofs about the code also with [pget]. *)
+Section With.
+  Variable get : para -> str -> option str.
+
+  Definition has_w (p : para) (key : str) : bool :=
+    match get p key with Some _ => true | None => false end.
+  Definition files_paragraphs_w (d : doc) : doc := filter (fun p => has_w p k_Files) (tl d).
+  Definition licence_paragraphs_w (d : doc) : doc :=
+    filter (fun p => negb (has_w p k_Files) && has_w p k_License) (tl d).
+  Definition patterns_w (p : para) : list str :=
+    match get p k_Files with Some x => split_whitespace x | None => [] end.
+  Definition para_matches_w (p : para) (path : str) : Prop :=
+    exists g, In g (patterns_w p) /\ glob_matches g path.
+  Definition para_licence_w (p : para) : option license :=
+    option_map license_of_str (get p k_License).
+  Definition named_w (n : str) (p : para) : Prop :=
+    exists l, para_licence_w p = Some l /\ lic_name l = Some n.
+  Definition doc_valid_w (d : doc) : Prop :=
+    forall p g, In p (files_paragraphs_w d) -> In g (patterns_w p) -> valid_escapes g = true.
+  Definition wf_body_para_w (p : para) : bool :=
+    (has_w p k_Files && has_w p k_License && has_w p k_Copyright) ||
+    (negb (has_w p k_Files) && has_w p k_License).
+  Definition wf_doc_w (d : doc) : Prop :=
+    match d with
+    | [] => False
+    | h :: body => has_w h k_Format = true /\ forallb wf_body_para_w body = true
+    end.
+End With.
 
 (* r is the last element of l that satisfies P, with its position — or None when there is none *)
 Definition is_last_such {A} (P : A -> Prop) (l : list A) (r : option (nat * A)) : Prop :=
@@ -44,31 +78,46 @@ Definition is_first_such {A} (P : A -> Prop) (l : list A) (r : option A) : Prop 
 
 (* "The licence for the file is that paragraph's own licence when it carries text, otherwise the
    first stand-alone licence paragraph with the same name" — [found] is the paragraph looked up *)
-Definition licence_answer (d : doc) (found : option (nat * para)) (ans : option license) : Prop :=
+Definition licence_answer_w (get : para -> str -> option str)
+  (d : doc) (found : option (nat * para)) (ans : option license) : Prop :=
   match found with
   | None => ans = None
   | Some (_, p) =>
-    match para_licence p with
+    match para_licence_w get p with
     | None => ans = None
     | Some own =>
       match lic_text own with
       | Some _ => ans = Some own
       | None => exists n q, lic_name own = Some n /\
-                            is_first_such (named n) (licence_paragraphs d) q /\
-                            ans = match q with Some q' => para_licence q' | None => None end
+                            is_first_such (named_w get n) (licence_paragraphs_w get d) q /\
+                            ans = match q with Some q' => para_licence_w get q' | None => None end
       end
     end
   end.
 
+(* ---------------------------------------------------------------- the specification's instances *)
+(* the Files paragraphs, in file order: the non-header paragraphs that carry a Files field *)
+Definition files_paragraphs : doc -> doc := files_paragraphs_w sget.
+(* the stand-alone licence paragraphs, in file order *)
+Definition licence_paragraphs : doc -> doc := licence_paragraphs_w sget.
+(* the whitespace-separated patterns of a paragraph (on one or several lines: a line break is
+   whitespace) *)
+Definition patterns : para -> list str := patterns_w sget.
+(* "one of whose whitespace-separated patterns matches the whole path"; a pattern with an
+   invalid escape matches nothing ([glob_matches] has no rule for it) *)
+Definition para_matches : para -> str -> Prop := para_matches_w sget.
+(* the licence a paragraph carries *)
+Definition para_licence : para -> option license := para_licence_w sget.
+(* a paragraph whose licence has the name n *)
+Definition named : str -> para -> Prop := named_w sget.
+(* every pattern of every Files paragraph has valid escapes (DEP-5: anything else is an error;
+   the code without C17-invalid-glob-escape panics when it reaches such a pattern) *)
+Definition doc_valid : doc -> Prop := doc_valid_w sget.
+Definition licence_answer : doc -> option (nat * para) -> option license -> Prop :=
+  licence_answer_w sget.
 (* a well-formed copyright file: a header with a Format field, then Files paragraphs (Files,
    Copyright, License) and stand-alone License paragraphs in any number and order *)
-Definition wf_body_para (p : para) : bool :=
-  (has p k_Files && has p k_License && has p k_Copyright) || (negb (has p k_Files) && has p k_License).
-Definition wf_doc (d : doc) : Prop :=
-  match d with
-  | [] => False
-  | h :: body => has h k_Format = true /\ forallb wf_body_para body = true
-  end.
+Definition wf_doc : doc -> Prop := wf_doc_w sget.
 
 (* the lossy reader's paragraph fp / lp is the conversion of the paragraph p of the file *)
 Definition files_conv (v : variant) (p : para) (fp : lfiles) : Prop := ly_files_para v p = Ok fp.
@@ -86,9 +135,14 @@ Definition found_rel {A B} (R : A -> B -> Prop)
   | _, _ => False
   end.
 
+(* the text starts with a Format field (name in any case) *)
+Definition starts_with_format_field (s : str) : Prop :=
+  exists name rest, s = name ++ 58%N :: rest /\ ci_eqb name k_Format = true.
+
 (* ------------------------------------------------------------------------------------------
    Property C17, clause by clause, for a variant v of the code.  [C17_full fixed] is proved
-   (props/C17.v: C17_holds); [C17_full shipped] is refuted, each failing clause separately. *)
+   (props/C17.v: C17_holds); [C17_full committed] and [C17_full shipped] are refuted, each
+   failing clause separately. *)
 
 (* "'*' matches any run of characters including '/', '?' matches exactly one character, a
    backslash makes the following '*', '?' or backslash literal, and every other character
@@ -100,9 +154,19 @@ Definition glob_clause (dotall : bool) : Prop :=
 (* "returns the last Files paragraph, in file order, one of whose whitespace-separated patterns
    matches the whole path" and "the licence for the file is that paragraph's own licence when it
    carries text, otherwise the first stand-alone licence paragraph with the same name":
-   all documents x all paths (lossless reader; the lossy one through [agree_clause]) *)
+   all documents outside the class field-name-case x all paths, valid patterns or not
+   (lossless reader; the lossy one through [agree_clause]) *)
 Definition lookup_clause (v : variant) : Prop :=
-  forall d path, doc_valid d ->
+  forall d path, exact_case d ->
+  exists r ans,
+    ll_find_files v d path = Ok r /\
+    is_last_such (fun p => para_matches p path) (files_paragraphs d) r /\
+    ll_find_license_for_file v d path = Ok ans /\
+    licence_answer d r ans.
+(* the same, only for documents all of whose patterns have valid escapes: what holds of the code
+   without C17-invalid-glob-escape *)
+Definition lookup_clause_valid (v : variant) : Prop :=
+  forall d path, exact_case d -> doc_valid d ->
   exists r ans,
     ll_find_files v d path = Ok r /\
     is_last_such (fun p => para_matches p path) (files_paragraphs d) r /\
@@ -118,10 +182,12 @@ Definition agree_clause (v : variant) : Prop :=
     ll_find_license_for_file v d path = ly_find_license_for_file v c path /\
     forall n, ll_find_license_by_name v d n = Ok (ly_find_license_by_name c n).
 Definition accept_clause (v : variant) : Prop :=
-  forall d, wf_doc d -> exists c, ly_of_doc v d = Ok c.
+  forall d, exact_case d -> wf_doc d -> exists c, ly_of_doc v d = Ok c.
 
 (* "text not starting with a Format field is refused as not machine-readable" (Err 2), by all
-   three text entry points, and only such text is *)
+   three text entry points, and only such text is — where "starts with a Format field" is read
+   by the code as "starts with the seven characters Format:" ([format_gate]; another case of the
+   name is refused: class field-name-case) *)
 Definition gate_clause (v : variant) : Prop :=
   forall s,
     (ll_from_str s = Err 2%N <-> format_gate s = false) /\
